@@ -15,7 +15,7 @@ func init() {
 	register(&propDef{
 		ID: "C15",
 		Meta: propMeta{
-			Explanation: "Decides the shape of the worker retry protocol on every path: (R15a) the single attempt call in doRetry sits in a loop every iteration of which passes a `counter < bound` test on an induction variable (+const per iteration, bound from the configured retries or the default), and a failed attempt can reach the next attempt only through the true side of httperror.Temporary applied to that attempt's own error; every other failure returns that same error value unwrapped; (R15b) every return of doRetry whose error may be nil is guarded by a successful attempt, including the post-loop return, for which the zero-iteration path must be impossible (bound proved > initial counter on every incoming path); (R15c) after the backoff wait the caller's context is re-checked before the next attempt, and the per-attempt context derives from the request's context; (R15d) the worker handler dispatches (and touches the token) only after hmac.Equal on the per-process cookie returned true, and the refusal path answers 403; (R15e) every field of the RPC request/response structs is written by the producing side and read by the consuming side, Usage maps to KeyUsageError and Retryable to Temporary(); (R15f) the key cache returns a cached key only if no key id is pinned or the ids are bytes.Equal, never stores a key fetched under a pinned id, and is accessed under its mutex; the handler installs the pinned id in the context. (R15g) the token wrappers between the RPC handler and the real token (key cache, rate limiter) return the inner token's errors unwrapped: the handler classifies errors by exact type, so a wrapped error loses its retryable / key-usage classification.",
+			Explanation: "Decides the shape of the worker retry protocol on every path: (R15a) the single attempt call in doRetry sits in a loop every iteration of which passes a `counter < bound` test on an induction variable (+const per iteration, bound from the configured retries or the default), and a failed attempt can reach the next attempt only through the true side of httperror.Temporary applied to that attempt's own error; every other failure returns that same error value unwrapped; (R15b) every return of doRetry whose error may be nil is guarded by a successful attempt, including the post-loop return, for which the zero-iteration path must be impossible (bound proved > initial counter on every incoming path); (R15c) after the backoff wait the caller's context is re-checked before the next attempt, and the per-attempt context derives from the request's context; (R15d) the worker handler dispatches (and touches the token) only after hmac.Equal on the per-process cookie returned true, and the refusal path answers 403; (R15e) every field of the RPC request/response structs is written by the producing side and read by the consuming side, Usage maps to KeyUsageError and Retryable to Temporary(); (R15f) the key cache returns a cached key only if no key id is pinned or the ids are bytes.Equal, never stores a key fetched under a pinned id, and is accessed under its mutex; the handler installs the pinned id in the context. (R15g) the token wrappers between the RPC handler and the real token (key cache, rate limiter) return the inner token's errors unwrapped: the handler classifies errors by exact type, so a wrapped error loses its retryable / key-usage classification. R15g also follows module helpers that wrap an error parameter. (R15h) the context (*WorkerToken).request attaches to the HTTP request is its caller's context or a child of it (context.WithTimeout/WithDeadline/WithCancel/WithValue, or a module helper returning such a child), never a context rooted elsewhere that only copies the deadline.",
 			NotDecided:  "timing of backoff, what HSMs return, HTTP transport behaviour, and the dynamic count of attempts (only that each iteration passes the bound test).",
 			Assumptions: []string{"httperror.Temporary classifies by the dynamic type of the error value, so wrapping loses the classification"},
 		},
@@ -151,6 +151,7 @@ func runC15(c *Ctx) {
 	c15Cache(c, rf)
 	c15RPC(c, re)
 	c15Transparent(c)
+	c15RequestContext(c)
 }
 
 func c15Retry(c *Ctx, dr *ssa.Function, ra, rb, rc string) {
@@ -1169,7 +1170,7 @@ func c15Transparent(c *Ctx) {
 					continue
 				}
 				name := p.calleeName(call.Common())
-				if name != "fmt.Errorf" && name != "errors.Join" && !strings.HasSuffix(name, "errors.Wrap") && !strings.HasSuffix(name, "errors.Wrapf") && !strings.HasSuffix(name, "errors.WithMessage") {
+				if name != "fmt.Errorf" && name != "errors.Join" && !strings.HasSuffix(name, "errors.Wrap") && !strings.HasSuffix(name, "errors.Wrapf") && !strings.HasSuffix(name, "errors.WithMessage") && !p.wrapsItsError(call.Common().StaticCallee()) {
 					continue
 				}
 				for _, iv := range inner {
